@@ -387,6 +387,12 @@ static std::string gen_numeral(vf::Rng &r, uint64_t variant, const char *&cls, b
                                       "18446744073709551610", "1844674407370955161", "18446744073709551620",
                                       "9007199254740993", "9007199254740992", "99999999999999999999", "0", "1", "9", "10"};
             s = sign + b[r.below(sizeof(b) / sizeof(b[0]))];
+            if (r.chance(1, 3)) {
+                // the same long integers continued as reals: the hand-over from the integer path happens at their last digits
+                static const char *tails[] = {".5", ".0", "e3", "E3", "E+2", "e-2", "E-19", ".25e1", "e0", "E0"};
+                s += tails[r.below(10)];
+                cls = "integer-boundary-continued";
+            }
             return s;
         }
         case 2: {
@@ -445,7 +451,7 @@ static std::string gen_numeral(vf::Rng &r, uint64_t variant, const char *&cls, b
                 int e   = int(r.below(600)) - 300;
                 if (e + mag > 300) e = 300 - mag;
                 if (e + mag < -300) e = -300 - mag;
-                s += "e" + std::to_string(e);
+                s += (r.chance(1, 2) ? "e" : "E") + std::to_string(e);
             } else if (s.find('.') == std::string::npos && n > 300) {
                 s.resize(sign.size() + 300);
             }
